@@ -148,4 +148,117 @@ theorem keys_loop (mapping : Bool) (v : PyObj) (t rt : PyType) (ht : t ≠ .list
       · simp only [List.map_cons, extractKeysLoopGen, hx, Option.bind_some, h1]; simp
       · simpa [h2] using hp
 
+/-! #### make_sortfunctions: the entry of `sf_list` a parsed option stands for -/
+
+def entryOf (s : FieldSpec) : SfEntry := (s.key, s.func, multOf s.desc)
+
+theorem field_parts (lower : Text → Text) (field : Text) :
+    (makeSortFieldGen lower field).toOption = (parseOption lower field).map entryOf := by
+  unfold makeSortFieldGen parseOption
+  generalize splitOn '/' field = f
+  rcases f with _ | ⟨k, _ | ⟨fn, _ | ⟨d, _ | ⟨x, r⟩⟩⟩⟩
+  · simp [parseParts, Except.bind, Except.toOption]
+  ·
+    by_cases a1 : lower ['a', 's', 'c'] = ['a', 's', 'c']
+    · simp [a1, parseParts, mkSpec, descOfWord, funcOfName, idx, Except.bind, Except.toOption, entryOf, multOf]
+    · by_cases a2 : lower ['a', 's', 'c'] = ['d', 'e', 's', 'c'] <;> simp [a1, a2, parseParts, mkSpec, descOfWord, funcOfName, idx, Except.bind, Except.toOption, entryOf, multOf]
+  ·
+    by_cases f1 : fn = ['c', 'm', 'p']
+    · subst f1
+      by_cases a1 : lower ['a', 's', 'c'] = ['a', 's', 'c']
+      · simp [a1, parseParts, mkSpec, descOfWord, funcOfName, idx, Except.bind, Except.toOption, entryOf, multOf]
+      · by_cases a2 : lower ['a', 's', 'c'] = ['d', 'e', 's', 'c'] <;> simp [a1, a2, parseParts, mkSpec, descOfWord, funcOfName, idx, Except.bind, Except.toOption, entryOf, multOf]
+    by_cases f2 : fn = ['n', 'o', 'c', 'a', 's', 'e']
+    · subst f2
+      by_cases a1 : lower ['a', 's', 'c'] = ['a', 's', 'c']
+      · simp [f1, a1, parseParts, mkSpec, descOfWord, funcOfName, idx, Except.bind, Except.toOption, entryOf, multOf]
+      · by_cases a2 : lower ['a', 's', 'c'] = ['d', 'e', 's', 'c'] <;> simp [f1, a1, a2, parseParts, mkSpec, descOfWord, funcOfName, idx, Except.bind, Except.toOption, entryOf, multOf]
+    by_cases f3 : fn = ['l', 'o', 'c', 'a', 'l', 'e']
+    · subst f3
+      by_cases a1 : lower ['a', 's', 'c'] = ['a', 's', 'c']
+      · simp [f1, f2, a1, parseParts, mkSpec, descOfWord, funcOfName, idx, Except.bind, Except.toOption, entryOf, multOf]
+      · by_cases a2 : lower ['a', 's', 'c'] = ['d', 'e', 's', 'c'] <;> simp [f1, f2, a1, a2, parseParts, mkSpec, descOfWord, funcOfName, idx, Except.bind, Except.toOption, entryOf, multOf]
+    by_cases f4 : fn = ['s', 't', 'r', 'c', 'o', 'l', 'l']
+    · subst f4
+      by_cases a1 : lower ['a', 's', 'c'] = ['a', 's', 'c']
+      · simp [f1, f2, f3, a1, parseParts, mkSpec, descOfWord, funcOfName, idx, Except.bind, Except.toOption, entryOf, multOf]
+      · by_cases a2 : lower ['a', 's', 'c'] = ['d', 'e', 's', 'c'] <;> simp [f1, f2, f3, a1, a2, parseParts, mkSpec, descOfWord, funcOfName, idx, Except.bind, Except.toOption, entryOf, multOf]
+    by_cases f5 : fn = ['l', 'o', 'c', 'a', 'l', 'e', '_', 'n', 'o', 'c', 'a', 's', 'e']
+    · subst f5
+      by_cases a1 : lower ['a', 's', 'c'] = ['a', 's', 'c']
+      · simp [f1, f2, f3, f4, a1, parseParts, mkSpec, descOfWord, funcOfName, idx, Except.bind, Except.toOption, entryOf, multOf]
+      · by_cases a2 : lower ['a', 's', 'c'] = ['d', 'e', 's', 'c'] <;> simp [f1, f2, f3, f4, a1, a2, parseParts, mkSpec, descOfWord, funcOfName, idx, Except.bind, Except.toOption, entryOf, multOf]
+    by_cases f6 : fn = ['s', 't', 'r', 'c', 'o', 'l', 'l', '_', 'n', 'o', 'c', 'a', 's', 'e']
+    · subst f6
+      by_cases a1 : lower ['a', 's', 'c'] = ['a', 's', 'c']
+      · simp [f1, f2, f3, f4, f5, a1, parseParts, mkSpec, descOfWord, funcOfName, idx, Except.bind, Except.toOption, entryOf, multOf]
+      · by_cases a2 : lower ['a', 's', 'c'] = ['d', 'e', 's', 'c'] <;> simp [f1, f2, f3, f4, f5, a1, a2, parseParts, mkSpec, descOfWord, funcOfName, idx, Except.bind, Except.toOption, entryOf, multOf]
+    by_cases a1 : lower ['a', 's', 'c'] = ['a', 's', 'c']
+    · simp [f1, f2, f3, f4, f5, f6, a1, parseParts, mkSpec, descOfWord, funcOfName, idx, Except.bind, Except.toOption, entryOf, multOf]
+    · by_cases a2 : lower ['a', 's', 'c'] = ['d', 'e', 's', 'c'] <;> simp [f1, f2, f3, f4, f5, f6, a1, a2, parseParts, mkSpec, descOfWord, funcOfName, idx, Except.bind, Except.toOption, entryOf, multOf]
+  ·
+    by_cases f1 : fn = ['c', 'm', 'p']
+    · subst f1
+      by_cases a1 : lower d = ['a', 's', 'c']
+      · simp [a1, parseParts, mkSpec, descOfWord, funcOfName, idx, Except.bind, Except.toOption, entryOf, multOf]
+      · by_cases a2 : lower d = ['d', 'e', 's', 'c'] <;> simp [a1, a2, parseParts, mkSpec, descOfWord, funcOfName, idx, Except.bind, Except.toOption, entryOf, multOf]
+    by_cases f2 : fn = ['n', 'o', 'c', 'a', 's', 'e']
+    · subst f2
+      by_cases a1 : lower d = ['a', 's', 'c']
+      · simp [f1, a1, parseParts, mkSpec, descOfWord, funcOfName, idx, Except.bind, Except.toOption, entryOf, multOf]
+      · by_cases a2 : lower d = ['d', 'e', 's', 'c'] <;> simp [f1, a1, a2, parseParts, mkSpec, descOfWord, funcOfName, idx, Except.bind, Except.toOption, entryOf, multOf]
+    by_cases f3 : fn = ['l', 'o', 'c', 'a', 'l', 'e']
+    · subst f3
+      by_cases a1 : lower d = ['a', 's', 'c']
+      · simp [f1, f2, a1, parseParts, mkSpec, descOfWord, funcOfName, idx, Except.bind, Except.toOption, entryOf, multOf]
+      · by_cases a2 : lower d = ['d', 'e', 's', 'c'] <;> simp [f1, f2, a1, a2, parseParts, mkSpec, descOfWord, funcOfName, idx, Except.bind, Except.toOption, entryOf, multOf]
+    by_cases f4 : fn = ['s', 't', 'r', 'c', 'o', 'l', 'l']
+    · subst f4
+      by_cases a1 : lower d = ['a', 's', 'c']
+      · simp [f1, f2, f3, a1, parseParts, mkSpec, descOfWord, funcOfName, idx, Except.bind, Except.toOption, entryOf, multOf]
+      · by_cases a2 : lower d = ['d', 'e', 's', 'c'] <;> simp [f1, f2, f3, a1, a2, parseParts, mkSpec, descOfWord, funcOfName, idx, Except.bind, Except.toOption, entryOf, multOf]
+    by_cases f5 : fn = ['l', 'o', 'c', 'a', 'l', 'e', '_', 'n', 'o', 'c', 'a', 's', 'e']
+    · subst f5
+      by_cases a1 : lower d = ['a', 's', 'c']
+      · simp [f1, f2, f3, f4, a1, parseParts, mkSpec, descOfWord, funcOfName, idx, Except.bind, Except.toOption, entryOf, multOf]
+      · by_cases a2 : lower d = ['d', 'e', 's', 'c'] <;> simp [f1, f2, f3, f4, a1, a2, parseParts, mkSpec, descOfWord, funcOfName, idx, Except.bind, Except.toOption, entryOf, multOf]
+    by_cases f6 : fn = ['s', 't', 'r', 'c', 'o', 'l', 'l', '_', 'n', 'o', 'c', 'a', 's', 'e']
+    · subst f6
+      by_cases a1 : lower d = ['a', 's', 'c']
+      · simp [f1, f2, f3, f4, f5, a1, parseParts, mkSpec, descOfWord, funcOfName, idx, Except.bind, Except.toOption, entryOf, multOf]
+      · by_cases a2 : lower d = ['d', 'e', 's', 'c'] <;> simp [f1, f2, f3, f4, f5, a1, a2, parseParts, mkSpec, descOfWord, funcOfName, idx, Except.bind, Except.toOption, entryOf, multOf]
+    by_cases a1 : lower d = ['a', 's', 'c']
+    · simp [f1, f2, f3, f4, f5, f6, a1, parseParts, mkSpec, descOfWord, funcOfName, idx, Except.bind, Except.toOption, entryOf, multOf]
+    · by_cases a2 : lower d = ['d', 'e', 's', 'c'] <;> simp [f1, f2, f3, f4, f5, f6, a1, a2, parseParts, mkSpec, descOfWord, funcOfName, idx, Except.bind, Except.toOption, entryOf, multOf]
+  · have h1 : ¬ (((k :: fn :: d :: x :: r).length : Int) = 1) := by simp only [List.length_cons]; omega
+    have h2 : ¬ (((k :: fn :: d :: x :: r).length : Int) = 2) := by simp only [List.length_cons]; omega
+    have h3 : ¬ (((k :: fn :: d :: x :: r).length : Int) = 3) := by simp only [List.length_cons]; omega
+    simp only [h1, h2, h3, if_false, parseParts, Except.bind, Except.toOption, Option.map_none]
+
+theorem fields_loop (lower : Text → Text) : ∀ (fs : List Text) (acc : List SfEntry),
+    (makeSortFunctionsLoopGen lower acc fs).toOption =
+      (parseOptions lower fs).map (fun l => acc ++ l.map entryOf) := by
+  intro fs
+  induction fs with
+  | nil => intro acc; simp [makeSortFunctionsLoopGen, parseOptions, Except.toOption]
+  | cons o os ih =>
+    intro acc
+    have hf := field_parts lower o
+    cases hx : makeSortFieldGen lower o with
+    | error e =>
+      rw [hx] at hf
+      cases hp : parseOption lower o with
+      | none => simp [makeSortFunctionsLoopGen, parseOptions, hx, hp, Except.bind, Except.toOption]
+      | some f => rw [hp] at hf; simp [Except.toOption] at hf
+    | ok e =>
+      rw [hx] at hf
+      cases hp : parseOption lower o with
+      | none => rw [hp] at hf; simp [Except.toOption] at hf
+      | some f =>
+        rw [hp] at hf
+        have he : e = entryOf f := by simpa [Except.toOption] using hf
+        subst he
+        simp only [makeSortFunctionsLoopGen, hx, Except.bind, parseOptions, hp, ih]
+        cases parseOptions lower os <;> simp
+
 end DTML.Lemmas.SortGen
